@@ -111,6 +111,7 @@ func (w *World) ResolveSpecFunc(sp *FuncSpec) *ssa.Function {
 
 type UnitOpts struct {
 	CheckLocks  bool
+	CoverBlocks bool
 	CheckFrames bool
 	Overflow    bool // emit arith:ovf obligations for signed arithmetic (default: ints are mathematical, A-INT)
 }
@@ -137,6 +138,7 @@ func GenerateUnit(w *World, sp *FuncSpec, opts UnitOpts) (res *UnitResult) {
 			}
 		}
 	}
+	x.coverBlocks = opts.CoverBlocks
 	x.checkLocks = opts.CheckLocks
 	x.checkFrames = opts.CheckFrames
 	x.noOverflow = !opts.Overflow
@@ -529,12 +531,12 @@ func SolveUnits(units []*UnitResult, opts SolveOpts) {
 					return j.u.Exec.scriptFor(o, j.part, cvc5, len(j.u.Exec.replayTerms) > 0)
 				}
 				tmo := opts.TimeoutS
-				if o.Kind == "vacuity" && tmo > 3 {
+				if (o.Kind == "vacuity" || o.Kind == "cover") && tmo > 3 {
 					// a contradiction is found quickly or not at all; a satisfiable state mostly ends in `unknown`
 					tmo = 3
 				}
 				r := Solve(mk, tmo, opts.Scratch, tag, "")
-				if r.Status != "unsat" && r.Status != "sat" && o.Kind != "vacuity" {
+				if r.Status != "unsat" && r.Status != "sat" && o.Kind != "vacuity" && o.Kind != "cover" {
 					// second attempt: only the assumptions relevant to the goal (sound: fewer assumptions)
 					mk2 := func(cvc5 bool) string {
 						locks[j.u].Lock()
@@ -565,7 +567,7 @@ func SolveUnits(units []*UnitResult, opts SolveOpts) {
 	var retry []job
 	for _, j := range jobs {
 		r := results[j.o][j.part]
-		if r.Status != "unsat" && r.Status != "sat" && j.o.Kind != "vacuity" {
+		if r.Status != "unsat" && r.Status != "sat" && j.o.Kind != "vacuity" && j.o.Kind != "cover" {
 			retry = append(retry, j)
 		}
 	}
@@ -614,6 +616,19 @@ func SolveUnits(units []*UnitResult, opts SolveOpts) {
 				}
 			}
 			o.Solver = strings.Join(sortedKeys(solvers), "+")
+			if o.Kind == "cover" {
+				// informational: unsat means the block cannot be reached under the contract
+				switch o.Status {
+				case "unsat":
+					o.Cover = "unreachable"
+				case "sat":
+					o.Cover = "reachable"
+				default:
+					o.Cover = "undecided"
+				}
+				o.Status = "unsat"
+				continue
+			}
 			if o.Kind == "vacuity" {
 				// expected sat
 				switch o.Status {
